@@ -8,7 +8,7 @@ from vlib.common import hx
 from checks import parser_common as pc
 
 # multi-byte neighbours for every kind of marker (2-, 3- and 4-byte characters)
-SIGMA_MB = ["a", "1", " ", "\n", "@", "~", "#", "{", "}", "(", ")", "%", "|", "\\", "&", "é", "名", "\U0001F955"]
+SIGMA_MB = ["a", "1", " ", "\n", "@", "~", "#", "{", "}", "(", ")", "%", "|", "\\", "&", "é", "名", "\U0001F955", "¿"]
 SIGMA_C05 = ["a", "1", " ", "\n", "@", "#", "~", "{", "}", "(", ")", "%", "-", "[", "]", "\\", ">", ":", "=", "é"]
 MB_WORDS = ["é", "名", "\U0001F955", "añ", "ß1", "x名", "naïve", "名前"]
 
@@ -49,7 +49,7 @@ def inputs_for(pid, tier, rng):
         ex = list(pc.enum_strings(SIGMA_C05, 3 if quick else 4)) + list(pc.enum_strings(pc.SIGMA_CORE, 4 if quick else 5))
         specials = ["hello\n---\na: 1\n---\nstep", "---\na: 1\n---\nstep", "a [- b -] c", "a -- b\nc", "\\-- a",
                     "[- a", "a \\[- b -] c", "-- a\n>> k: v", "@a{1%b} -- c", "= s = x", "== s == x"]
-    fm = pc.frontmatter_family(3 if quick else 4) if pid == "C05" else pc.frontmatter_family(2)
+    fm = (pc.frontmatter_family(3 if quick else 4) if pid == "C05" else pc.frontmatter_family(2)) + pc.fm_placements()
     ng = 1500 if quick else 20000
     g = [t for t, _, _, _ in pc.grec_texts(rng, ng)]
     mb = mb_recipes(rng, ng)
@@ -74,9 +74,11 @@ def run(pid, prefix, rep, tier, seed, modelled, theorem_scope, extra=None):
     hits = []
     kinds = {}
     for s, e, c, v in mon:
-        bad = [x for x in v if x.startswith(prefix)]
+        bad = [x for x in v if x.startswith(prefix) or (x == "mon:panic" and pid == "C04")]
         for x in bad:
             k = x.split(":")[1] if pid == "C04" else "dropped"
+            if x == "mon:panic":
+                k = "spans_unusable_by_the_monitor"
             kinds[k] = kinds.get(k, 0) + 1
         if bad:
             hits.append((s, "%s on the implementation" % ",".join(bad),
